@@ -23,7 +23,7 @@ from ..mmio import *
 EXPLANATION = ("Window admission and the per-operation register traces are extracted as guarded expressions / traces from MIR and "
                "folded over enumerated tables (including 32-bit boundary values); the capability scan is checked with control-"
                "dependence (guard) queries on the constructor's loop body with each guard's discriminant folded over its domain.")
-FLOORS = {'admission_rows': 300, 'scan_assignments': 3, 'common_cfg_fields': 16, 'operations': 10}
+FLOORS = {'capability_info_sites': 1, 'admission_rows': 300, 'scan_assignments': 3, 'common_cfg_fields': 16, 'operations': 10}
 
 COMMON = {0: ('device_feature_select', 4, 'RW'), 4: ('device_feature', 4, 'R'), 8: ('driver_feature_select', 4, 'RW'),
           12: ('driver_feature', 4, 'RW'), 16: ('msix_config', 2, 'RW'), 18: ('num_queues', 2, 'R'), 20: ('device_status', 1, 'RW'),
@@ -437,14 +437,27 @@ def eval_admission(paths, kind, addr, size, off, ln, szt, aligned, mem_d, io_d):
 # ------------------------------------------------------------------------------------------------ W2 / W4
 
 def w2_scan(F, R, tadt):
+    # private loop-free helpers of the transport module are analysed inlined (a refactoring may move the capability
+    # reads into one); the window-admission functions and everything public stay opaque events
+    adm0 = set(b['id'] for b in F.bodies.values() if F.handwritten(b) and any(
+        bl['term']['k'] == 'call' and bl['term'].get('trait') == HAL and bl['term'].get('method') == 'mmio_phys_to_virt' for bl in b['blocks']))
+    adm1 = set(adm0)
+    for b in F.bodies.values():
+        if F.handwritten(b) and any(bl['term']['k'] == 'call' and bl['term'].get('fn') in adm0 for bl in b['blocks']):
+            adm1.add(b['id'])
+
+    def helper(bb):
+        return F.handwritten(bb) and not bb.get('pub') and not has_loop(bb) and bb['id'] not in adm1 and bb['id'].startswith('transport::pci::') \
+            and 'impl_trait' not in bb and not bb['id'].startswith('transport::pci::bus::')
     ctor = None
     for b in F.bodies.values():
         if b.get('impl_adt') == tadt and 'impl_trait' not in b and F.handwritten(b) and b['kind'] == 'AssocFn' and has_loop(b):
-            if any(bl['term']['k'] == 'call' and bl['term'].get('trait') == CFGACC for bl in b['blocks']):
+            sg_ = supergraph(F, b['id'], opaque=lambda t, bb, me=b['id']: bb['id'] != me and not helper(bb), tag='w2')
+            if any(True for _ in sg_.calls(lambda d: d.get('trait') == CFGACC)):
                 ctor = b
     if not ctor:
         raise Undecided('PCI transport constructor with the capability loop not found')
-    sg = supergraph(F, ctor['id'], opaque=lambda t, bb: bb['id'] != ctor['id'], tag='w2')
+    sg = supergraph(F, ctor['id'], opaque=lambda t, bb: bb['id'] != ctor['id'] and not helper(bb), tag='w2')
     S = sg.sym
     where = fn_site(F, ctor['id'])
     be = back_edges(sg)
@@ -533,7 +546,8 @@ def w2_scan(F, R, tadt):
     R.check(sorted(set(want_types)) == [1, 2, 3, 4], 'W2', '%s:all-four-types' % ctor['id'], where, 'common/notify/isr/device windows are all scanned',
             'capability types scanned: %s' % want_types)
     # field offsets of the capability reads
-    infos = [n for n in sg.nodes if n.ctx == 0 and n.kind == 'assign' and n.d['rv']['rv'] == 'agg' and n.d['rv'].get('adt') == info_adt]
+    infos = [n for n in sg.nodes if n.kind == 'assign' and n.d['rv']['rv'] == 'agg' and n.d['rv'].get('adt') == info_adt]
+    R.count('capability_info_sites', len(infos))
     for n in infos:
         rv = n.d['rv']
         for fname, op in zip(rv['fields'], rv['ops']):
